@@ -33,7 +33,7 @@ var sensitive = []string{"Authorization", "Cookie", "X-Api-Key", "X-Auth-Token",
 
 // hop-by-hop names as listed in the code under RFC 2616 §13.5.1 (Transfer-Encoding handled via Chunked)
 var hopValues = map[string][]string{
-	"Connection":          {"close", "keep-alive", "close, TE", "Upgrade"},
+	"Connection":          {"close", "keep-alive", "close, TE", "Upgrade", "close, X-Forwarded-For, Via", "via", "keep-alive, X-Real-IP, x-forwarded-proto"},
 	"Keep-Alive":          {"timeout=5", "timeout=5, max=100", ""},
 	"Proxy-Authenticate":  {"Basic realm=x", ""},
 	"Proxy-Authorization": {"Basic c2VjcmV0", "Bearer hop-secret"},
@@ -147,6 +147,10 @@ func genCase(t *rapid.T) Case {
 			name = caseVariant(t, rapid.SampledFrom(names).Draw(t, "rep")) // repeated name, maybe other case
 		} else {
 			name = rapid.SampledFrom([]string{"G", "g", "Gx-", "G-"}).Draw(t, "pre") + tokenTail.Draw(t, "tok")
+			if rapid.IntRange(0, 5).Draw(t, "wellknown") == 0 {
+				// headers other software along the way knows and may be tempted to "normalise"
+				name = caseVariant(t, rapid.SampledFrom([]string{"X-Request-ID", "X-Correlation-ID", "Traceparent", "Accept-Language", "X-Session-ID", "Anthropic-Beta", "OpenAI-Organization"}).Draw(t, "wk"))
+			}
 			names = append(names, name)
 		}
 		hs = append(hs, [2]string{name, valueGen.Draw(t, "val")})
@@ -394,13 +398,26 @@ func runCase(c Case) []ev.Violation {
 			continue
 		}
 		if !allowedAdded[n] && !strings.EqualFold(n, "Transfer-Encoding") && !strings.EqualFold(n, "Connection") {
-			bad("unexpected-header-added", "upstream request carries %q: %q which the client did not send", n, got[n])
+			// a header of Olla's own on the upstream request is not a changed client header: recorded only
+			rec.Class("upstream-header-not-sent-by-client=" + n)
+		}
+	}
+	// headers the client nominates in Connection are hop-by-hop for this hop (RFC 7230 section 6.1): what
+	// the client put into them may be dropped, Olla's own addition is still owed
+	nominated := map[string]bool{}
+	for _, v := range sent["connection"] {
+		for _, tok := range strings.Split(v, ",") {
+			nominated[strings.ToLower(strings.TrimSpace(tok))] = true
 		}
 	}
 	// 4. forwarding headers: every pre-existing value is still there, in order, Olla's own addition after them
 	for n := range forwardNames {
 		want := elems(sent[n])
 		if len(want) == 0 {
+			continue
+		}
+		if nominated[n] {
+			rec.Class("forwarding-header-nominated-in-connection=" + n)
 			continue
 		}
 		rec.Class("preexisting=" + n)
@@ -439,6 +456,12 @@ func runCase(c Case) []ev.Violation {
 			}
 		}
 		want, have := elems(sent[n]), elems(got[n])
+		if nominated[n] {
+			if len(have) == 0 {
+				bad("own-forwarding-element-missing/"+n+"/nominated-in-connection", "%s route, engine %s: the client nominated %s in its Connection header (%q); the upstream request carries no %s at all, not even Olla's own", c.Route, c.Engine, n, sent["connection"], n)
+			}
+			continue
+		}
 		if len(want) == 0 && len(have) == 0 {
 			bad("own-forwarding-element-missing/"+n+"/"+c.Route, "%s route, engine %s: the client sent no %s value and the upstream request carries none either (upstream %q): Olla's own addition is missing", c.Route, c.Engine, n, got[n])
 			continue
@@ -496,7 +519,7 @@ func TestC15(t *testing.T) {
 	defer rig.StopAll()
 	rec.Assume("an X-Real-IP line carries one address (the header is not a list); Via / X-Forwarded-* lines carry one or two elements")
 	rec.SetRule("header blocks written verbatim by a raw TCP client: every sensitive and hop-by-hop name in generated letter-case variants with 0..3 occurrences and empty values (a quarter of the cases sparse: only one or two blocked names present, with drawn patterns of empty and non-empty lines), 0..40 arbitrary RFC 7230 token-named headers (repeated names, obs-text and tab in values), optional pre-existing Via / X-Forwarded-* / X-Real-IP on one or several lines (a sixth of those lines empty); x route (proxy, provider, Anthropic passthrough, Anthropic translated) x engine x failover from a refusing first endpoint; the raw backend's received header block is compared. non-trivial = >=1 sensitive header in non-canonical case and >=5 arbitrary headers; distinct by sorted (name, count) skeleton")
-	rec.Assume("headers nominated by the client's Connection value (RFC 7230 §6.1) are not asserted; header names are compared case-insensitively; for X-Forwarded-For/Via preservation of the existing elements (as a prefix) and exactly one appended element are asserted, not what that element says")
+	rec.Assume("headers nominated by the client's Connection value (RFC 7230 §6.1) may be dropped, but Olla's own Via / X-Forwarded-* / X-Real-IP must still be present; a header on the upstream request that the client did not send is recorded, not judged; header names are compared case-insensitively; for X-Forwarded-For/Via preservation of the existing elements (as a prefix) and exactly one appended element are asserted, not what that element says")
 	if ev.Replay(t, rec, "headers", runCase) {
 		return
 	}
